@@ -153,12 +153,12 @@ class Distribution:
             return False
 
         if not self.is_updateable and not other.is_updateable:
-            return np.all(self.pmf == other.pmf)
+            return np.array_equal(self.pmf, other.pmf)
 
         return (
             self.is_updateable == other.is_updateable
             and self._func.keywords == other._func.keywords
-            and np.all(self.pmf == other.pmf)
+            and np.array_equal(self.pmf, other.pmf)
         )
 
     def __len__(self) -> int:
